@@ -22,17 +22,40 @@ open NemoVerif NemoVerif.Serialize NemoVerif.CleanUp
 
 /-! ## Serialisation -/
 
-/-- T1. Saving and restoring a sharing-free encodable value gives the value back (all values, all depths). -/
+/-- T1. Saving and restoring a sharing-free encodable value gives the value back (all values, all depths).
+    Since the repair d13eeb5 `Encodable` includes `re.Pattern` values and dicts with arbitrary
+    (None / bool / int / str / flat-tuple) keys: the only remaining exclusions are
+    `ComparisonExpression`, unknown classes, `functools.partial` (dropped on purpose) and non-JSON raw
+    action payloads. -/
 theorem roundtrip_tree (v : PV) (h : Encodable v = true) : (encode v >>= decode) = .ok v := by
   obtain ⟨j, h1, h2⟩ := Serialize.roundtrip v h
   simp [h1, h2, bind, Except.bind]
 
 example : Encodable (.data "FlowState" [(.str "uid", .str "u"), (.str "flow_id", .str "f"), (.str "loop_id", .none),
     (.str "hierarchy_position", .str "0"),
-    (.str "context", .dict [(.str "s", .set [.int 1, .str "a"]), (.str "n", .list [.tuple [.int 1], .dict []])]),
+    (.str "context", .dict [(.str "s", .set [.int 1, .str "a"]), (.str "n", .list [.tuple [.int 1], .dict [(.int 1, .regex "a+" 32)]])]),
     (.str "_status", .enum "FlowStatus" "STARTED"), (.str "status_updated", .datetime "2024-01-01T00:00:00")]) = true := by
-  simp [Encodable, EncodableKvs, EncodableList, Key.isStr, noTypeKey, isDataclassName, reservedTags, ctorOk, enumOk,
+  simp [Encodable, EncodableKvs, EncodableVals, EncodableList, Key.isStr, noTypeKey, isDataclassName, reservedTags, ctorOk, enumOk,
     isPrivate, keyName, NemoVerif.Generated.C11.nameToClass, NemoVerif.Generated.C11.dataclasses, NemoVerif.Generated.C11.enums]
+
+/-- A `re.Pattern` value round-trips (finding "state-holds-regex", fixed by d13eeb5). -/
+theorem regex_roundtrips (p : String) (f : Int) : (encode (.regex p f) >>= decode) = .ok (.regex p f) :=
+  roundtrip_tree (.regex p f) (by simp [Encodable])
+
+/-- A dict round-trips whatever its keys are, as long as its values do (finding
+    "dict-with-non-string-keys", fixed by d13eeb5: such dicts are written as item lists). -/
+theorem dict_any_keys_roundtrips (kvs : List (Key × PV)) (h : EncodableVals kvs = true) :
+    (encode (.dict kvs) >>= decode) = .ok (.dict kvs) :=
+  roundtrip_tree (.dict kvs) (by simpa [Encodable] using h)
+
+/-- kernel-checked instance: the former witnesses now come back unchanged -/
+theorem fixed_witnesses_roundtrip :
+    (encode (.dict [(.int 1, .str "one"), (.none, .int 3), (.tuple [.int 1, .str "b"], .regex "a+" 32)]) >>= decode)
+      = .ok (.dict [(.int 1, .str "one"), (.none, .int 3), (.tuple [.int 1, .str "b"], .regex "a+" 32)]) :=
+  dict_any_keys_roundtrips _ (by simp [EncodableVals, Encodable])
+
+/-- the keys of such a dict are written by `encode_to_dict` itself -/
+theorem key_written_as_value (k : Key) : encode k.toPV = .ok (encodeKey k) := Serialize.encodeKey_spec k
 
 /-- `state_to_json` succeeds exactly on the values of shape `EncShape` — the gaps are explicit. -/
 theorem encode_total_iff (v : PV) : (encode v).isOk = true ↔ EncShape v = true := by
@@ -44,8 +67,8 @@ theorem encodable_encShape (v : PV) (h : Encodable v = true) : EncShape v = true
   rw [← Serialize.encode_isOk, h1]; rfl
 
 /-- What a save/restore returns in general — on every value the encoder accepts and whose classes the
-    decoder knows (`Decodable`): the value with dict keys stringified, `functools.partial` dropped and raw
-    action payloads JSON-normalised (`norm`).  This makes the lossy region of the round trip explicit:
+    decoder knows (`Decodable`): the value with `functools.partial` dropped, raw action payloads
+    JSON-normalised (tuples → lists, keys stringified) and dataclass/RailsConfig field names stringified (`norm`).  This makes the lossy region of the round trip explicit:
     the restored value equals the saved one exactly when `norm v = v`. -/
 theorem roundtrip_lossy (v : PV) (h : Decodable v = true) : (encode v >>= decode) = .ok (norm v) := by
   obtain ⟨j, h1, h2⟩ := Serialize.lossy v h
@@ -63,10 +86,10 @@ theorem norm_of_encodable (v : PV) (h : Encodable v = true) : norm v = v := Seri
 
 example : Decodable (.dict [(.int 1, .partialFn), (.none, .tuple [.str "a"])]) = true
     ∧ norm (.dict [(.int 1, .partialFn), (.none, .tuple [.str "a"])])
-        = .dict [(.str "1", .none), (.str "null", .tuple [.str "a"])] := by
+        = .dict [(.int 1, .none), (.none, .tuple [.str "a"])] := by
   constructor
-  · simp [Decodable, DecodableKvs, DecodableList, Key.dumpable]
-  · simp [norm, normKvs, normList, normKey]; decide
+  · simp [Decodable, DecodableVals, DecodableList]
+  · simp [norm, normVals, normList]
 
 /-- Finite fact about the class table generated from the current source (re-checked on every run):
     every dataclass the decoder can be asked to rebuild accepts its own complete field list, i.e. no
@@ -75,21 +98,14 @@ theorem class_table_ctor_ok :
     (NemoVerif.Generated.C11.dataclasses.all fun c => ctorOk c.1 (c.2.map (·.1))) = true := by
   decide
 
-/-- Finding "state-holds-regex" / "state-holds-comparison": the full statement
-    `∀ v reachable, (encode v).isOk` is false for the code as it is. -/
-theorem regex_as_is_counterexample :
-    encode (.data "FlowState" [(.str "context", .dict [(.str "r", .regex 0)])]) = .error (.unhandledType "re.Pattern")
-    ∧ encode (.dict [(.str "c", .cmp)]) = .error (.unhandledType "ComparisonExpression") := by
-  constructor <;> simp [encode, encodeKvs, bind, Except.bind]
+/-- Finding "state-holds-comparison" (open): the full statement `∀ v reachable, (encode v).isOk` is
+    false for the code as it is. -/
+theorem comparison_as_is_counterexample :
+    encode (.data "FlowState" [(.str "context", .dict [(.str "c", .cmp)])]) = .error (.unhandledType "ComparisonExpression") := by
+  simp [encode, encodeKvs, encodeVals, allStr, Key.isStr, bind, Except.bind]
 
-/-- Finding "dict-with-non-string-keys": the encoder accepts `{1: "a"}` and the decoder returns `{"1": "a"}`. -/
-theorem int_key_as_is_counterexample :
-    (encode (.dict [(.int 1, .str "a")]) >>= decode) = .ok (.dict [(.str "1", .str "a")]) := by
-  have := builtin_tags_not_classes
-  simp [encode, encodeKvs, keyStr, wrap, decode, typeTag, decodeItemsAtValue, decodePlain, this, bind, Except.bind, pure, Except.pure]
-  decide
-
-/-- … and a tuple stored in an action's start arguments comes back as a list (raw `Action.to_dict()`). -/
+/-- Finding "action-payload-not-json" (open): a tuple stored in an action's start arguments comes back as
+    a list (raw `Action.to_dict()`). -/
 theorem action_tuple_as_is_counterexample :
     (encode (.action "u" "A" none "STARTED" (.dict []) (.dict [(.str "x", .tuple [.int 1])]) 0) >>= decode)
       = .ok (.action "u" "A" none "STARTED" (.dict []) (.dict [(.str "x", .list [.int 1])]) 0) := by
